@@ -642,6 +642,23 @@ def _campaign(tier, seed, extra_progs):
             r["premature"] = bool(r["events"]) and (r["id"] in rejq or premature_quiescence(r["events"], r["mode"])) and not r.get("confirm", 0) >= 1
             r["nevents"] = len(r["events"])
             r["events"] = r["events"][:0]
+        # a run that looks cut short (some process could still move when the heartbeat timed out) is repeated ONCE with a settle time of 3 s: the
+        # repetition is what gets judged - if processes that could move still have not moved after 3 s without any event, they are stuck, not starved
+        prem = [r for r in runs if r["premature"] and not r["crash"]][:150]
+        if prem:
+            jobs = [{"id": r["id"] + "#settle", "text": byname_[r["prog"]]["text"], "mode": r["mode"], "typecheck": True, "execute": True, "monitor": bool(r["monitor"]),
+                     "subscriber": bool(r.get("subscriber")), "gomaxprocs": r["gomaxprocs"], "seed": r["seed"], "yield": r["yield"], "trace": True, "dump": False,
+                     "max_ms": 15000, "max_events": 30000} for r in prem]
+            rr = vlib.run_jobs(os.path.join(vlib.BUILD, "vdrive"), jobs, batch=1, timeout=60, parallel=8, extra_env={"VERIF_SETTLE_MS": "3000"})
+            for r in prem:
+                x = rr.get(r["id"] + "#settle") or {}
+                if x.get("hang") or x.get("timeout") or x.get("overflow") or x.get("late") or x.get("prints") is None:
+                    continue
+                r["premature"] = False
+                r["resettled"] = True
+                r["crash"] = x.get("crash")
+                r["prints"], r["blocked"] = x.get("prints"), x.get("blocked")
+        tm["resettle"] = len(prem)
         # reference semantics: confluence of the reference on the small programs, and every observed print sequence
         t1 = time.time()
         saxconf = sax.confluence(small, {n: e for n, e in saxexp.items() if e["unique"]}, work, timeout=300 if tier == "quick" else 1200)
